@@ -1775,7 +1775,7 @@ class NodeRequire:
                         raise CklRuntimeError(
                             ValueString("ERROR"),
                             "Expected string or identifier "
-                            "modulespec but got " + modulespec.type(),
+                            "modulespec but got " + val.type(),
                             self.pos,
                         )
                     modulespec = val.value
